@@ -29,17 +29,22 @@ type mgrObs struct {
 	DcsWrites []string `json:"dcs_writes"` // op:path of every coordination write
 	Perform  string   `json:"perform"`
 	CreateSwitchRes string `json:"create_switch_res"`
+	AfterAck []string `json:"after_ack"` // what was changed AFTER the acknowledgement of full maintenance was written in this iteration
 }
 
 func mgrObserve(evs []fakes.Event, master string, maintMode string, shouldLeave bool, emerge bool, panicked string, next appState, active bool) mgrObs {
 	o := mgrObs{Steps: []string{}, Next: string(next), Mutating: []string{}, DcsWrites: []string{}}
 	var switchSets []fakes.Event
 	finished, rejected, started := false, false, false
+	acked := false
 	for _, e := range evs {
 		switch e.Kind {
 		case "sql":
 			if fakes.IsMutating(e.Op) {
 				o.Mutating = append(o.Mutating, e.Host+":"+e.Op)
+				if acked {
+					o.AfterAck = append(o.AfterAck, e.Host+":"+e.Op)
+				}
 			}
 		case "dcs":
 			if e.Op == "acquire" {
@@ -47,6 +52,12 @@ func mgrObserve(evs []fakes.Event, master string, maintMode string, shouldLeave 
 			}
 			if e.Op == "set" || e.Op == "create" || e.Op == "delete" {
 				o.DcsWrites = append(o.DcsWrites, e.Op+":"+e.Host)
+				if acked && e.Host != "maintenance" {
+					o.AfterAck = append(o.AfterAck, "dcs:"+e.Op+":"+e.Host)
+				}
+				if e.Op == "set" && e.Host == "maintenance" && e.Res == "ok" && maintMode == "full-unacked" && strings.Contains(e.Arg, `"mysync_paused":true`) {
+					acked = true
+				}
 			}
 		}
 	}
@@ -190,6 +201,7 @@ type mgrScn struct {
 	maxAtt     int
 	masterHealth []int // per tick: 0 ok, 1 missing, 2 ping failed, 3 fs readonly, 4 crash recovered, 5 crash recovered + ping failed, 6 crash recovered + fs readonly
 	masterDown []bool  // per tick: manager cannot reach the master
+	race       bool    // another initiator files a request between this iteration's read of the request key and its own filing
 	recGone    int     // 0 none; k: the k-th non-master host publishes no health record although its server is fine (its daemon lost the coordination service)
 	sleeps     []time.Duration
 	replica    []int // per replica: 0 running, 1 stopped, 2 dead
@@ -496,6 +508,16 @@ func mgrRun(t *testing.T, out *verifh.Out, s mgrScn, dir string, kind string) {
 		}
 		nowT := time.Now()
 		wd.TakeLog()
+		raced := false
+		if s.race && swNow == nil && s.swFail == 0 {
+			wd.OnDcs = func(client, op, path, res string) { // called with the world's lock held
+				if op == "get" && path == "switch" && !raced {
+					raced = true
+					data, _ := json.Marshal(&Switchover{From: master, InitiatedBy: "op", InitiatedAt: time.Now(), Cause: CauseManual, MasterTransition: SwitchoverTransition})
+					tree.Data["switch"] = data
+				}
+			}
+		}
 		panicked := ""
 		var next appState
 		func() {
@@ -506,6 +528,7 @@ func mgrRun(t *testing.T, out *verifh.Out, s mgrScn, dir string, kind string) {
 			}()
 			next = app.stateManager()
 		}()
+		wd.OnDcs = nil
 		evs := wd.TakeLog()
 		nowEnd := time.Now()
 		_, emergeErr := os.Stat(cfg.Emergefile)
@@ -563,7 +586,9 @@ func mgrRun(t *testing.T, out *verifh.Out, s mgrScn, dir string, kind string) {
 		var swAfter Switchover
 		if tree.GetJSON("switch", &swAfter) {
 			after["run_count"] = swAfter.RunCount
+			after["switch_initiated_by"] = swAfter.InitiatedBy
 		}
+		after["raced"] = raced
 		// terminal events of this iteration: the operator's abort, a rejection record written by the daemon
 		after["operator_aborted"] = abortedNow
 		abortedNow = false
@@ -606,6 +631,7 @@ func mgrGen(r *rand.Rand, focus string) mgrScn {
 	s.last = []int{0, 0, 1, 2, 3, 4, 5, 6}[r.Intn(8)]
 	s.lock = []int{0, 0, 0, 0, 0, 0, 0, 1, 2}[r.Intn(9)]
 	s.recGone = []int{0, 0, 0, 1, 2}[r.Intn(5)]
+	s.race = r.Intn(5) == 0
 	switch focus {
 	case "C05":
 		s.maint = []int{0, 0, 0, 0, 1, 2, 6, 7}[r.Intn(8)]
